@@ -21,7 +21,14 @@ CHAR, SHORT = 253, 253 * 253
 PARTS = 5
 
 
+
 def shards(tier, seed):
+    from vf import engine
+
+    return engine.with_interpreter_options(_plain_shards(tier, seed), key="fn")
+
+
+def _plain_shards(tier, seed):
     return [{"fn": fn, "part": p, "parts": PARTS} for fn in ("init", "ping", "account") for p in range(PARTS)] + [{"fn": fn, "sticky": True} for fn in ("init", "ping", "account")]
 
 
